@@ -19,8 +19,8 @@ RULE = ("case = (parameter list [(name, default)], decorator options positional/
         "(Task(...) and @task(...)), each also parsed with the real Parser on by-construction argvs and passed through "
         "Executor.normalize into the task body; 22 % of the random signatures end in keyword-only parameters (a parameter "
         "lacking a default may follow a defaulted one), 6 % contain *args / **kwargs / positional-only parameters; plus "
-        "namespaces of 2-4 tasks (namesakes with different signatures, one Task object under several names / in several "
-        "collections): every context of to_contexts() against its own task's signature (fresh task, model, oracle, "
+        "namespaces of 2-4 tasks (namesakes with different signatures, tasks wrapping the SAME function with different decorator "
+        "options, one Task object under several names / in several collections): every context of to_contexts() against its own task's signature (fresh task, model, oracle, "
         "parse + bind through the namespace's Executor); a case is non-trivial when it has >= 2 parameters or a decorator option is set; distinct = "
         "distinct (params, options) pairs")
 TRUSTED = ["Lean 4.33 kernel", "axioms propext/Classical.choice/Quot.sound only",
@@ -148,9 +148,9 @@ def task_kwargs(opts):
     return kw
 
 
-def build_task(params, opts, shape=None, name="t"):
+def build_task(params, opts, shape=None, name="t", body=None):
     from invoke import Task, task
-    body = build_body(params, shape)
+    body = body or build_body(params, shape)
     kw = task_kwargs(opts)
     if opts.get("deco"):
         t = task(name=name, **kw)(body)
@@ -668,7 +668,10 @@ def build_tree(case):
     members = []
     for tk in case["tasks"]:
         params = [tuple(p) for p in tk["params"]]
-        body, task = build_task(params, tk["opts"], tk.get("shape"), name=tk["name"])
+        # "same_as": a second Task object around the SAME function (equal under Task.__eq__ when the names agree),
+        # with decorator options of its own
+        shared = members[tk["same_as"]][3] if tk.get("same_as") is not None else None
+        body, task = build_task(params, tk["opts"], tk.get("shape"), name=tk["name"], body=shared)
         members.append((params, tk["opts"], tk.get("shape"), body, task))
     root, subs = Collection(), {}
     for coll, idx, bname in case["bind"]:
@@ -758,6 +761,20 @@ def random_tree(rng):
         if c.get("shape"):
             tk["shape"] = c["shape"]
         tasks.append(tk)
+    # twins: another Task object around the same function under the same task name - equal as far as Task.__eq__ /
+    # __hash__ can tell - but with decorator options of its own, hence a CLI of its own
+    for _ in range(rng.choice([0, 1, 1, 2])):
+        j = rng.randrange(len(tasks))
+        if tasks[j].get("same_as") is not None or not tasks[j]["params"]:
+            continue
+        params = [tuple(p) for p in tasks[j]["params"]]
+        for _try in range(20):
+            o = {k: v for k, v in random_opts(rng, params).items() if k not in ("help", "ign")}
+            if {k: v for k, v in o.items() if k != "deco"} != {k: v for k, v in tasks[j]["opts"].items() if k != "deco"} \
+                    and not Impl(params, o, tasks[j].get("shape")).error:
+                tw = dict(tasks[j], opts=o, same_as=j)
+                tasks.append(tw)
+                break
     colls = ["", "docs", "www"]
     bind, used = [], set()
 
@@ -773,6 +790,10 @@ def random_tree(rng):
         rng.shuffle(order)
         if not any(add(coll, i, None) for coll in order):
             add(rng.choice(colls), i, "task%d" % i)
+        j = tasks[i].get("same_as")
+        if j is not None and rng.random() < 0.5:
+            home = [b[0] for b in bind if b[1] == j][0]
+            add(home, i, "twin%d" % i)  # the twin next to its original, in one collection under another name
         if rng.random() < 0.35:
             add(rng.choice(colls), i, "alt%d" % i)  # the same Task object under a second name
         if rng.random() < 0.3:
@@ -1012,6 +1033,8 @@ def run(ctx):
         names = [t["name"] for t in tc["tasks"]]
         if len(set(names)) != len(names):
             out.hist["tree:namesakes"] += 1
+        if any(t.get("same_as") is not None for t in tc["tasks"]):
+            out.hist["tree:same-function-other-options"] += 1
         if len(tc["bind"]) > len(tc["tasks"]):
             out.hist["tree:task-bound-more-than-once"] += 1
         for f in tfails:
